@@ -218,6 +218,38 @@ CLAIMED["C11"] = dict(
    technique="Coq proof (mathcomp det_mulmx / det_trig, matrix algebra) + extracted-model correspondence",
    design="DESIGN.md section 4, C11")
 
+CLAIMED["C13"] = dict(
+   text="A table of EVERY in-place operation in the library (augmented assignment, item assignment, method ending in _, "
+        ".data assignment, out=), regenerated from all .py files on each run together with the origin of the written "
+        "tensor (fresh local / call result / private-helper value / non-tensor / attribute / registered state / public "
+        "argument / unknown) computed by the translator's alias analysis; Coq proves by computation over that table that no "
+        "row writes a public function's argument or a tensor of unknown origin, that attributes and registered state "
+        "are written only in constructors and at the two documented sites (BatchNorm running statistics under "
+        "`if self.training`, ActNorm's initialisation), and that in evaluation mode no row writes registered state; "
+        "a storage semantics with version counters shows what this buys (pure calls change nothing, an argument is "
+        "untouched unless written, repeated calls see the same state). The dynamic check runs every catalogue transform, "
+        "distribution and flow in both modes and directions on contiguous / strided / transposed / grad-leaf inputs and "
+        "compares argument data and _version, context, state_dict and repeated outputs bit-for-bit.",
+   note="Trusted: Coq kernel (no axioms); the translator's alias rules (which expressions are views / fresh / call "
+        "results) - a classification, validated dynamically, not a proved-sound analysis of Python; harness.",
+   technique="Coq proof by computation over an AST-generated table + storage-semantics lemmas + dynamic side-effect check",
+   design="DESIGN.md section 4, C13")
+CLAIMED["C15"] = dict(
+   text="A table of every attribute assignment / register_buffer in every class's __init__, regenerated on each run with "
+        "its kind and whether its right-hand side draws from a random source; Coq proves by computation that everything "
+        "constructor-random is a parameter, a persistent buffer or a sub-module (RandomPermutation's draw is registered "
+        "by its parent), proves that if no unregistered attribute depends on the seed then loading the state dict into a "
+        "model built under any other seed gives the same function whatever happened before saving, and that the "
+        "registration requirement is necessary. The search loads state dicts strictly into fresh instances built under a "
+        "different seed for every catalogue transform and for flows / distributions with random permutations, masks, "
+        "degrees and spline parameters, after three histories (fresh, SGD steps, data-dependent initialisation), and "
+        "compares forward / inverse / log_prob bit-for-bit.",
+   note="Trusted: Coq kernel (no axioms); the translator's notion of a random source (direct calls to torch.rand*, "
+        "randperm, randint, multinomial, init.*_ ; randomness hidden behind helper methods, e.g. MADE's random degrees, "
+        "is only covered by the search); torch load_state_dict contract; harness.",
+   technique="Coq proof by computation over an AST-generated table + abstract reload theorem + bit-exact reload search",
+   design="DESIGN.md section 4, C15")
+
 def main():
     checks = []
     for pid in ALL:
